@@ -41,7 +41,8 @@ CONSTANTS Rpcs,      \* set of records [name, stream, mut, feats]  (feats: set o
           Pres,      \* {"exists", "missing"}
           PanicOK,   \* deviation: set of <<rpc name, shape>>
           Dead,      \* deviation: set of <<rpc name, shape>>
-          Creates    \* deviation: set of rpc names that summon (= create) a missing swamp before they fail
+          Creates,   \* deviation: set of rpc names that summon (= create) a missing swamp before they fail
+          Wedge      \* deviation: set of <<rpc name, shape>> after which the addressed swamp no longer serves requests
 
 VARIABLES pc,        \* "idle" | "locked" | "named" | "body" | "unwound" | "replied" | "stopped"
           cur,       \* the case being served: [rpc, shape, pre]
@@ -49,9 +50,10 @@ VARIABLES pc,        \* "idle" | "locked" | "named" | "body" | "unwound" | "repl
           vigils,    \* active vigils on the target swamp
           store,     \* "S0" (as seeded) or "S1" (changed)
           out,       \* outcome of the current request ("" while running)
-          alive
+          alive,
+          wedged     \* the addressed swamp is left in a state in which ordinary requests to it do not return
 
-vars == <<pc, cur, locked, vigils, store, out, alive>>
+vars == <<pc, cur, locked, vigils, store, out, alive, wedged>>
 
 -----------------------------------------------------------------------------
 (* which shape needs which request feature *)
@@ -87,14 +89,14 @@ MayChange(c, o) == c.rpc.mut /\ o = "answer"
 -----------------------------------------------------------------------------
 Init ==
   /\ pc = "idle" /\ cur = [rpc |-> CHOOSE r \in Rpcs : TRUE, shape |-> "valid", pre |-> "exists"]
-  /\ locked = 0 /\ vigils = 0 /\ store = "S0" /\ out = "" /\ alive = TRUE
+  /\ locked = 0 /\ vigils = 0 /\ store = "S0" /\ out = "" /\ alive = TRUE /\ wedged = FALSE
 
 Receive(c) ==
   /\ pc \in {"idle", "replied"} /\ alive
   /\ cur' = c /\ out' = ""
   /\ locked' = IF c.rpc.stream THEN locked ELSE locked + 1
   /\ pc' = "locked"
-  /\ UNCHANGED <<vigils, store, alive>>
+  /\ UNCHANGED <<vigils, store, alive, wedged>>
 
 Pair == <<cur.rpc.name, cur.shape>>
 
@@ -106,12 +108,12 @@ ValidateName ==
      ELSE IF Pair \in Dead THEN alive' = FALSE /\ out' = "dead" /\ pc' = "replied"
      ELSE IF Pair \in PanicOK THEN out' = "panic_ok" /\ pc' = "unwound" /\ UNCHANGED alive
      ELSE out' = "error" /\ pc' = "unwound" /\ UNCHANGED alive
-  /\ UNCHANGED <<cur, locked, vigils, store>>
+  /\ UNCHANGED <<cur, locked, vigils, store, wedged>>
 
 Summon ==
   /\ pc = "named"
   /\ vigils' = vigils + 1 /\ pc' = "body"
-  /\ UNCHANGED <<cur, locked, store, out, alive>>
+  /\ UNCHANGED <<cur, locked, store, out, alive, wedged>>
 
 \* the body answers or rejects; a listed pair panics somewhere in it (the deferred cease-vigil still runs);
 \* a panic in the middle of a mutating body may leave a partial write behind
@@ -127,6 +129,8 @@ Body ==
         /\ store' \in (IF cur.rpc.mut THEN {store, "S1"} ELSE {store})
      \/ /\ Pair \in Dead /\ out' = "dead" /\ alive' = FALSE /\ UNCHANGED store
   /\ vigils' = vigils - 1 /\ pc' = "unwound"
+  \* a listed pair unwinds without giving back something the swamp needs (e.g. an index lock taken without defer)
+  /\ wedged' = (wedged \/ Pair \in Wedge)
   /\ UNCHANGED <<cur, locked>>
 
 \* a request that (de)registers settings for a pattern is followed by ordinary requests to a swamp that matches
@@ -138,13 +142,13 @@ Unwind ==
   /\ IF "pattern" \in cur.rpc.feats /\ Pair \in Dead /\ out # "dead"
        THEN alive' = FALSE /\ out' = "dead"
        ELSE UNCHANGED <<out, alive>>
-  /\ UNCHANGED <<cur, vigils, store>>
+  /\ UNCHANGED <<cur, vigils, store, wedged>>
 
-\* graceful stop waits for the system lock and the vigils
+\* graceful stop waits for the system lock and the vigils; a wedged swamp cannot be closed
 Stop ==
-  /\ pc = "replied" /\ alive /\ locked = 0 /\ vigils = 0
+  /\ pc = "replied" /\ alive /\ locked = 0 /\ vigils = 0 /\ ~wedged
   /\ pc' = "stopped"
-  /\ UNCHANGED <<cur, locked, vigils, store, out, alive>>
+  /\ UNCHANGED <<cur, locked, vigils, store, out, alive, wedged>>
 
 Next == (\E c \in Cases : Receive(c)) \/ ValidateName \/ Summon \/ Body \/ Unwind \/ Stop
 Spec == Init /\ [][Next]_vars
@@ -159,6 +163,9 @@ CountersReturn == pc \in {"idle", "replied", "stopped"} => locked = 0 /\ vigils 
 NoSideEffect ==
   [][(pc = "body" /\ store' # store) => (cur.rpc.mut /\ out' = "answer")]_vars
 CanStop == Replied => ENABLED Stop
+\* after EVERY case - whatever its outcome, listed finding or not - the addressed swamp still serves ordinary requests
+\* (the driver's health probe: new key, every index, delete, count)
+Usable == Replied => ~wedged
 
-CleanFailure == CleanOutcome /\ Alive /\ CountersReturn /\ CanStop
+CleanFailure == CleanOutcome /\ Alive /\ CountersReturn /\ CanStop /\ Usable
 =============================================================================
